@@ -99,8 +99,9 @@ fn real_main() {
             }
         }
         "eval" => props::tools::eval(&args[2..]),
-        "reduce01" => props::tools::reduce01(&args[2..]),
+        "reduce01" | "reduce" => props::tools::reduce01(&args[2..]),
         "dbg01" => props::tools::dbg01(&args[2..]),
+        "c05-families" => props::tools::c05_families(),
         id => {
             let prop = match props::lookup(id) {
                 Some(p) => p,
